@@ -116,6 +116,80 @@ Section BS.
         + intros K. destruct (produce bs1 r) as [b1 bs2] eqn:Pr. intros [= <- <-].
           cbn [validate]. rewrite E. now apply IH.
     Qed.
+
+    (* ---------------------------------------------------------------- block-generation deadline *)
+    (** [d]: how many more transactions may START before the block-generation deadline
+        (GatherTXs's context, tx.go:140-158) has passed; [None] = it never does.  [Some 0] = the
+        deadline has passed: checkBGTimeout, composed BEFORE the executor (tx.go:160), ends the
+        loop without executing the next candidate. *)
+    Fixpoint produce_d (d : option nat) (bs : bstate) (cands : list T) : list T * bstate :=
+      match cands with
+      | [] => ([], bs)
+      | t :: r =>
+        match d with
+        | Some O => ([], bs)
+        | _ =>
+          let d' := option_map pred d in
+          let '(failed, to, bs') := tx_exec bs t in
+          if failed then (if to then ([], bs') else produce_d d' bs' r)
+          else let '(b, bs'') := produce_d d' bs' r in (t :: b, bs'')
+        end
+      end.
+
+    Fixpoint skips_clean_d (d : option nat) (bs : bstate) (cands : list T) : Prop :=
+      match cands with
+      | [] => True
+      | t :: r =>
+        match d with
+        | Some O => True
+        | _ =>
+          let d' := option_map pred d in
+          let '(failed, to, bs') := tx_exec bs t in
+          if failed then untouched bs bs' /\ (if to then True else skips_clean_d d' bs' r)
+          else skips_clean_d d' bs' r
+        end
+      end.
+
+    (** (a) for EVERY position of the deadline: the block is accepted with the producer's state *)
+    Theorem produce_validate_agree_deadline : forall cands d bs b bs',
+      skips_clean_d d bs cands -> produce_d d bs cands = (b, bs') -> validate bs b = Some bs'.
+    Proof.
+      induction cands as [|t r IH]; intros d bs b bs'; cbn [skips_clean_d produce_d].
+      - intros _ [= <- <-]. reflexivity.
+      - assert (Step : forall d',
+                  (let '(failed, to, bs1) := tx_exec bs t in
+                   if failed then untouched bs bs1 /\ (if to then True else skips_clean_d d' bs1 r) else skips_clean_d d' bs1 r) ->
+                  (let '(failed, to, bs1) := tx_exec bs t in
+                   if failed then (if to then ([], bs1) else produce_d d' bs1 r)
+                   else let '(b0, bs2) := produce_d d' bs1 r in (t :: b0, bs2)) = (b, bs') ->
+                  validate bs b = Some bs').
+        { intros d'. destruct (tx_exec bs t) as [[failed to] bs1] eqn:E. destruct failed.
+          - intros [U K].
+            assert (bs1 = bs) by (apply untouched_eq; [eapply tx_exec_failed_covered; eauto | exact U]). subst bs1.
+            destruct to; [intros [= <- <-]; reflexivity | intros H; now apply (IH d')].
+          - intros K. destruct (produce_d d' bs1 r) as [b1 bs2] eqn:Pr. intros [= <- <-].
+            cbn [validate]. rewrite E. now apply (IH d'). }
+        destruct d as [[|n]|].
+        + intros _ [= <- <-]. reflexivity.
+        + apply Step.
+        + apply Step.
+    Qed.
+
+    (** the seeded order (seeded/C02-r2): the deadline is tested AFTER the transaction has run;
+        a transaction during which the deadline passes stays in the block state but is not listed *)
+    Fixpoint produce_d_mut (d : option nat) (bs : bstate) (cands : list T) : list T * bstate :=
+      match cands with
+      | [] => ([], bs)
+      | t :: r =>
+        let d' := option_map pred d in
+        let '(failed, to, bs') := tx_exec bs t in
+        match d with
+        | Some O => ([], bs')
+        | _ =>
+          if failed then (if to then ([], bs') else produce_d_mut d' bs' r)
+          else let '(b, bs'') := produce_d_mut d' bs' r in (t :: b, bs'')
+        end
+      end.
   End Exec.
 
   (** executeTx at HEAD writes BpReward, receipts and internalOps only on its non-failing exit *)
@@ -173,3 +247,24 @@ Example head_agrees :
   let '(b, bs') := produce Z unit Z unit Z (execute_tx Z unit Z unit Z demo_core) bs [7; -1; 3] in
   b = [7; 3] /\ validate Z unit Z unit Z (execute_tx Z unit Z unit Z demo_core) bs b = Some bs' /\ bp _ _ _ _ bs' = 10.
 Proof. vm_compute. repeat split. Qed.
+
+(** the deadline tested after the transaction: a transfer executed while the deadline passes is
+    in the producer's state but not in its block *)
+Theorem deadline_checked_after_tx_refuted :
+  exists cands d bs,
+    let '(b, bs') := produce_d_mut Z unit Z unit Z (execute_tx Z unit Z unit Z demo_core) d bs cands in
+    exists bs'', validate Z unit Z unit Z (execute_tx Z unit Z unit Z demo_core) bs b = Some bs'' /\ bs'' <> bs'.
+Proof.
+  exists [7; 3; 5], (Some 1%nat), (mk_bs Z unit Z unit 0 0 [] [] None tt). vm_compute.
+  eexists. split; [reflexivity|]. discriminate.
+Qed.
+
+Example deadline_head_agrees :
+  let bs := mk_bs Z unit Z unit 0 0 [] [] None tt in
+  forallb (fun d =>
+    let '(b, bs') := produce_d Z unit Z unit Z (execute_tx Z unit Z unit Z demo_core) d bs [7; -1; 3; 5] in
+    match validate Z unit Z unit Z (execute_tx Z unit Z unit Z demo_core) bs b with
+    | Some bs'' => (covered _ _ _ _ bs'' =? covered _ _ _ _ bs') && (bp _ _ _ _ bs'' =? bp _ _ _ _ bs')
+    | None => false
+    end) [None; Some 0; Some 1; Some 2; Some 3; Some 4; Some 5]%nat = true.
+Proof. vm_compute. reflexivity. Qed.
